@@ -26,7 +26,7 @@ LEVEL_TEXT = ("Theorems over Gherkin.v: every element is stamped with the number
               "every step keyword, the keyword scan of a line starting with that keyword returns that keyword with the type of its list "
               "(decided by evaluation over the generated tables); doc-string lines are collected without the delimiter's indentation; table "
               "rows with escaped pipes are read back exactly; at the level of the whole machine a feature of scenarios with any number of tag "
-              "lines and a description above / below each scenario line, a feature description, a Background with its steps, Given/When/Then steps and a doc-string and/or a table under any step is parsed into exactly what was written - keywords, names, step "
+              "lines and a description above / below each scenario line, a feature description, a Background with its steps, Scenario Outlines with their Examples blocks (tags, name, table), Given/When/Then steps and a doc-string and/or a table under any step is parsed into exactly what was written - keywords, names, step "
               "types, tags, doc-string texts, table headings, rows, cells and all line numbers - in any language, a trailing table being closed at the end of "
               "the text (induction over scenarios, tag lines, step lines and row lines).  "
               "Model compared with the real parser on every rendered document; the oracle compares with the abstract tree.")
